@@ -101,7 +101,9 @@ package dnsforward
 //@   modifies lastCID, lastCIDErr
 //@   ensures no-clientid-on-plain: pctx.Proto != proxy.ProtoHTTPS && pctx.Proto != proxy.ProtoTLS && pctx.Proto != proxy.ProtoQUIC ==> clientID == "" && err == nil
 //@   ensures doh-bad-path-fails: old(pctx.Proto == proxy.ProtoHTTPS && dohBad(pctx)) ==> err != nil
-//@   ensures doh-path-id-wins: old(pctx.Proto == proxy.ProtoHTTPS && dohHasID(pctx)) ==> err == nil && clientID == old(strings.ToLower(seg(dohPath(pctx), 1)))
+//@   ensures doh-path-id-wins: old(pctx.Proto == proxy.ProtoHTTPS && dohHasID(pctx)) && err == nil ==> clientID == old(strings.ToLower(seg(dohPath(pctx), 1)))
+//@   ensures doh-path-id-needs-no-server-name: old(pctx.Proto == proxy.ProtoHTTPS && dohHasID(pctx) && (!s.conf.TLSConf.StrictSNICheck || s.conf.TLSConf.ServerName == "")) ==> err == nil
+//@   ensures strict-rejects-a-foreign-server-name: old((pctx.Proto == proxy.ProtoHTTPS || pctx.Proto == proxy.ProtoTLS || pctx.Proto == proxy.ProtoQUIC) && s.conf.TLSConf.StrictSNICheck && s.conf.TLSConf.ServerName != "" && srvNameKnown(pctx) && srvNameOf(pctx) != s.conf.TLSConf.ServerName && !netutil.IsImmediateSubdomain(srvNameOf(pctx), s.conf.TLSConf.ServerName)) ==> err != nil
 //@   ghost at return: lastCID = clientID
 //@   ghost at return: lastCIDErr = (err != nil)
 
@@ -151,9 +153,15 @@ package dnsforward
 //@   ensures tls-name-only-from-the-handshake: old(r.TLS) != nil ==> err == nil && !fromHost && srvName == old(r.TLS.ServerName)
 //@   modifies nothing
 // Reads connection state only (TLS / QUIC / HTTP request objects); body is I/O glue and is not verified.
+// srvNameOf(pctx): the server name the connection of this request presents (what clientServerName reads from the TLS /
+// QUIC / HTTP objects); srvNameKnown(pctx): reading it succeeds.
+//@ declare srvNameOf(pctx *proxy.DNSContext) string
+//@ declare srvNameKnown(pctx *proxy.DNSContext) bool
 //@ func clientServerName(pctx *proxy.DNSContext, proto proxy.Proto) (srvName string, err error)
 //@   trusted
 //@   modifies nothing
+//@   ensures (err == nil) == srvNameKnown(pctx)
+//@   ensures err == nil ==> srvName == srvNameOf(pctx)
 
 // ---- C11: routes are registered through the authenticating helper with a non-empty method ----
 // (an empty method is reserved for the DNS-over-HTTPS resolver paths and skips authentication in home.httpRegister)
